@@ -74,6 +74,21 @@ theorem waiter_immediate {P : Prog} {ops : List Op} {m : M} (h : Reach P ops m) 
       exact fun d hd => h3 d (h2 d hd)
     | _ => simp [isFired] at hfe
 
+/-- **Immediately, also for chained registrations.**  `waiter_immediate` speaks about returned top-level operations.  The same
+holds for every `register` wherever it is called from — in particular from inside a callback: the `_try_waiters` loop it runs
+returns (its frame `pass [] false` is about to be popped) only in a state where no pending waiter is ready, so every waiter
+whose components became complete through that nested `register` has been called before the `register` returns to the callback
+(and, by `waiter_once`, exactly once). -/
+theorem try_waiters_returns_settled {P : Prog} {ops : List Op} {m : M} (h : Reach P ops m) (rest : List Frame)
+    (hst : m.stack = .pass [] false :: rest) :
+    ∀ e ∈ m.core.waiters, ∃ d ∈ e.deps, d ∉ m.core.comps := by
+  intro e he
+  have hnr : ready m.core e = false := by
+    cases hr : ready m.core e with
+    | false => rfl
+    | true => exact absurd (h.pinv.top [] rest hst e he hr) (by simp)
+  simpa [ready] using hnr
+
 /-- **Failures are contained, locally.**  The frame that stands for the `try/except` in `_try_waiter` resumes the caller
 (the loop of `_try_waiters`, or `call_when_ready`) in exactly the same way whether the callback returned or raised. -/
 theorem failure_contained (P : Prog) (c : Core) (id : Nat) (rest : List Frame) :
@@ -196,6 +211,72 @@ theorem lifecycle_down {P : Prog} {ops : List Op} {m : M} (hP : P.repaired = tru
     have : m.core.log.countP isGoingDown = 0 := by rw [List.countP_eq_zero]; simpa using h5
     simp [this]
 
+/-- **`quit()` after start-up goes down, once.**  From any reachable state between operations in which start-up is over and the
+core is running, a `quit` operation that returns has raised GoingDown exactly once and then Down exactly once (neither had been
+raised before), and the core is no longer running. -/
+theorem quit_op_goes_down {P : Prog} {ops : List Op} {m : M} (hP : P.repaired = true) (h : Reach P ops m)
+    (hg : ops.count .goUp ≤ 1) (hq : m.stack = []) (hs : m.core.startingUp = false) (hr : m.core.running = true) (n : Nat)
+    (hret : (run P n (startOp (.act .quit) m)).stack = []) :
+    m.core.log.countP isGoingDown = 0 ∧ m.core.log.countP isDown = 0 ∧
+    (run P n (startOp (.act .quit) m)).core.running = false ∧
+    (run P n (startOp (.act .quit) m)).core.log.countP isGoingDown = 1 ∧
+    (run P n (startOp (.act .quit) m)).core.log.countP isDown = 1 ∧
+    Before isGoingDown isDown (run P n (startOp (.act .quit) m)).core.log := by
+  have hl := h.linv hP hg
+  have h5 := hl.l5; have h7 := hl.l7
+  rw [hr] at h5; rw [hq] at h7
+  have hrun : (run P n (startOp (.act .quit) m)).core.running = false := by
+    cases n with
+    | zero => simp [run, startOp] at hret
+    | succ k =>
+      have h1 : (step P (startOp (.act .quit) m)).core.running = false := by
+        simp [step, startOp, stepTop, stepNorm, stepAct, doQuit, hs, hr]
+      have : run P (k + 1) (startOp (.act .quit) m) = run P k (step P (startOp (.act .quit) m)) := by
+        simp [run, startOp]
+      rw [this]
+      exact running_false_run k h1
+  have hreach : Reach P (ops ++ [.act .quit]) (run P n (startOp (.act .quit) m)) := (Reach.op _ h hq).run n
+  have hg' : (ops ++ [Op.act Act.quit]).count .goUp ≤ 1 := by
+    rw [List.count_append]; simpa using hg
+  have hd := lifecycle_down hP hreach hg' hret
+  have hlc := lifecycle hP hreach hg'
+  have hgd : (run P n (startOp (.act .quit) m)).core.log.countP isGoingDown = 1 := hd.2.2 hrun
+  have h5' : m.core.log.countP isGoingDown = 0 := by simpa using h5
+  have h7' : m.core.log.countP isDown = 0 := by simp at h7; omega
+  exact ⟨h5', h7', hrun, hgd, by rw [hd.1]; exact hgd, hlc.2.2.2.2.2.2.1⟩
+
+/-- **`quit()` during start-up goes down at the first `tick` after `goUp`.**  `quit()` called while starting up only spawns a
+thread (`pendingQuit`); once start-up is over, the operation that lets those threads run leaves the core down: GoingDown once,
+Down once. -/
+theorem tick_runs_pending_quit {P : Prog} {ops : List Op} {m : M} (hP : P.repaired = true) (h : Reach P ops m)
+    (hg : ops.count .goUp ≤ 1) (hq : m.stack = []) (hs : m.core.startingUp = false) (hp : 0 < m.core.pendingQuit) (n : Nat)
+    (hret : (run P n (startOp .tick m)).stack = []) :
+    (run P n (startOp .tick m)).core.running = false ∧
+    (run P n (startOp .tick m)).core.log.countP isGoingDown = 1 ∧
+    (run P n (startOp .tick m)).core.log.countP isDown = 1 := by
+  obtain ⟨k', hk'⟩ : ∃ k', m.core.pendingQuit = k' + 1 := ⟨m.core.pendingQuit - 1, by omega⟩
+  have hrun : (run P n (startOp .tick m)).core.running = false := by
+    cases n with
+    | zero => simp [run, startOp] at hret
+    | succ k =>
+      have h1 : (step P (startOp .tick m)).core.running = false := by
+        cases hr : m.core.running <;> simp [step, startOp, stepTop, stepNorm, doQuit, hs, hr, hk']
+      have : run P (k + 1) (startOp .tick m) = run P k (step P (startOp .tick m)) := by
+        simp [run, startOp]
+      rw [this]
+      exact running_false_run k h1
+  have hreach : Reach P (ops ++ [.tick]) (run P n (startOp .tick m)) := (Reach.op _ h hq).run n
+  have hg' : (ops ++ [Op.tick]).count .goUp ≤ 1 := by
+    rw [List.count_append]; simpa using hg
+  have hd := lifecycle_down hP hreach hg' hret
+  have hgd := hd.2.2 hrun
+  exact ⟨hrun, hgd, by rw [hd.1]; exact hgd⟩
+
+/-- `quit()` while starting up only queues a thread. -/
+theorem quit_while_starting_up_is_queued (P : Prog) (c : Core) (hs : c.startingUp = true) :
+    (stepAct P c .quit).1 = { c with pendingQuit := c.pendingQuit + 1 } ∧ (stepAct P c .quit).2.1 = [] := by
+  simp [stepAct, hs]
+
 theorem quit_goes_down (P : Prog) (c : Core) (hs : c.startingUp = false) : (stepAct P c .quit).1.running = false := by
   simp only [stepAct, hs]
   unfold doQuit
@@ -224,8 +305,10 @@ theorem listen_deps_exact (explicit attrs : List Str) (c : Str) :
     (listenDepsL explicit attrs).Nodup :=
   ⟨listenDeps_mem explicit attrs c, nodup_dedupG _⟩
 
-/-- **What is bound.**  When the waiter fires, a listener (attribute, component, event) is added iff the component is one of
-the dependencies, the attribute is one of the sink's, the prefix rule maps it to that event, and the component raises it. -/
+/-- **What is bound.**  `attrs` here is the list of the sink's *callable* attributes (`autoBindEvents` skips the others:
+`if callable(a)`), whereas the dependencies are parsed from *all* names of `dir(sink)` (`listen_deps_exact`).  When the waiter
+fires, a listener (attribute, component, event) is added iff the component is one of the dependencies, the attribute is one of
+the sink's callable ones, the prefix rule maps it to that event, and the component raises it. -/
 theorem wiring_exact (deps attrs : List Str) (events : Str → Option (List Str)) (a c e : Str) :
     (a, c, e) ∈ wiringL deps attrs events ↔
       c ∈ deps ∧ a ∈ attrs ∧ boundEventL c a = some e ∧ ∃ evs, events c = some evs ∧ e ∈ evs :=
@@ -236,16 +319,22 @@ theorem wiring_once (explicit attrs : List Str) (events : Str → Option (List S
     (wiringL (listenDepsL explicit attrs) attrs events).Nodup :=
   wiring_nodup _ attrs events (nodup_dedupG _) ha
 
-/-- **End to end.**  A sink that has a method `_handle_<c>_<e>` (c non-empty, not starting with `_`; e without `_`) for an
-event `e` that component `c` raises waits for `c`, and when its waiter fires that method is bound to `e` of `c`. -/
-theorem handler_wired (explicit attrs : List Str) (events : Str → Option (List Str)) (c e : Str) (ch : Char) (cs : List Char)
-    (evs : List Str) (hc : c = ch :: cs) (hch : ch ≠ '_') (he : '_' ∉ e) (ha : handlerName c e ∈ attrs)
+/-- **End to end.**  `allAttrs` = the names in `dir(sink)`, `callable ⊆ allAttrs` the callable ones.  A sink that has a *method*
+`_handle_<c>_<e>` (c non-empty, not starting with `_`; e without `_`) for an event `e` that component `c` raises waits for `c`,
+and when its waiter fires that method is bound to `e` of `c`; an attribute that is not callable is never bound (but the
+component it names is still waited for). -/
+theorem handler_wired (explicit allAttrs callable : List Str) (events : Str → Option (List Str)) (c e : Str) (ch : Char)
+    (cs : List Char) (evs : List Str) (hsub : ∀ a ∈ callable, a ∈ allAttrs)
+    (hc : c = ch :: cs) (hch : ch ≠ '_') (he : '_' ∉ e) (ha : handlerName c e ∈ callable)
     (hev : events c = some evs) (hin : e ∈ evs) :
-    c ∈ listenDepsL explicit attrs ∧
-    (handlerName c e, c, e) ∈ wiringL (listenDepsL explicit attrs) attrs events := by
-  have hdep : c ∈ listenDepsL explicit attrs :=
-    (listenDeps_mem explicit attrs c).2 (Or.inr ⟨_, ha, handlerComponent_spec c e he⟩)
-  exact ⟨hdep, (wiring_mem _ attrs events _ c e).2 ⟨hdep, ha, boundEvent_spec c e ch cs hc hch, evs, hev, hin⟩⟩
+    c ∈ listenDepsL explicit allAttrs ∧
+    (handlerName c e, c, e) ∈ wiringL (listenDepsL explicit allAttrs) callable events ∧
+    (∀ a c' e', a ∉ callable → (a, c', e') ∉ wiringL (listenDepsL explicit allAttrs) callable events) := by
+  have hdep : c ∈ listenDepsL explicit allAttrs :=
+    (listenDeps_mem explicit allAttrs c).2 (Or.inr ⟨_, hsub _ ha, handlerComponent_spec c e he⟩)
+  refine ⟨hdep, (wiring_mem _ callable events _ c e).2 ⟨hdep, ha, boundEvent_spec c e ch cs hc hch, evs, hev, hin⟩, ?_⟩
+  intro a c' e' hna hm
+  exact hna ((wiring_mem _ callable events a c' e').1 hm).2.1
 
 /-- non-vacuity: component `a_b`, event `Ev`; a sink with that handler and a decoy -/
 example : handlerComponentL (handlerName ['a', '_', 'b'] ['E', 'v']) = some ['a', '_', 'b'] := by decide
@@ -306,5 +395,14 @@ example : (Act.register 1).isRendezvous = true ∧
       = [.fired 0 [0, 1], .failed 0] := by decide
 example : (run demoProg 30 (startOp .goUp {})).stack = [] ∧ (run demoProg 30 (startOp .goUp {})).core.stage = 1 := by decide
 example : Ev.fired 0 [0] ∈ (step demoProg ⟨{}, [.script [.declare [0] 1], .opEnd], false⟩).core.log := by decide
+
+/-- hypotheses of `quit_op_goes_down` / `tick_runs_pending_quit` / `try_waiters_returns_settled` are satisfiable:
+after `[goUp]` a quit returns; after `[quit, goUp]` one thread is pending and start-up is over; a nested loop about to return -/
+example : let m := (exec (d2Prog true) 30 [.goUp] {}).getD {}
+    m.stack = [] ∧ m.core.startingUp = false ∧ m.core.running = true ∧ (run (d2Prog true) 30 (startOp (.act .quit) m)).stack = [] := by decide
+example : let m := (exec (d2Prog true) 30 [.act .quit, .goUp] {}).getD {}
+    m.stack = [] ∧ m.core.startingUp = false ∧ 0 < m.core.pendingQuit ∧ (run (d2Prog true) 30 (startOp .tick m)).stack = [] := by decide
+example : (run demoProg 9 ⟨{ waiters := [⟨0, [1], 0⟩, ⟨1, [1, 2], 1⟩], decls := [⟨0, [1], 0⟩, ⟨1, [1, 2], 1⟩], nextId := 2 },
+    [.script [.register 1], .opEnd], false⟩).stack.head? = some (.pass [] false) := by decide
 
 end Pox.C08
